@@ -32,11 +32,16 @@ def _case(draw):
     z = draw(st.sampled_from(["0", "0", "0", "0", "0", "0", "0", "1", "1", "10"]))
     spec["zero"] = 0.0 if z == "0" else draw(st.floats(-1.0, 1.0)) * gen.DEG if z == "1" else draw(st.floats(-10.0, 10.0)) * gen.DEG
     cfg = {}
-    c = draw(st.sampled_from(["default", "default", "default", "step", "accuracy", "iterations"]))
+    c = draw(st.sampled_from(["default", "default", "default", "step", "accuracy", "iterations", "tiny-accuracy"]))
     if c == "step":
         cfg["max_calc_step_size_feet"] = draw(st.sampled_from([0.1, 0.25, 1.0, 2.0]))
     elif c == "accuracy":
         cfg["cZeroFindingAccuracy"] = 10 ** draw(st.floats(-5.0, -2.0))
+    elif c == "tiny-accuracy":
+        # an accuracy below the solver's own noise can never be met: the attempt (and any retry) must fail cleanly
+        cfg["cZeroFindingAccuracy"] = 10 ** draw(st.floats(-14.0, -8.0))
+        if draw(st.booleans()):
+            cfg["cMaxIterations"] = draw(st.integers(2, 12))
     elif c == "iterations":
         cfg["cMaxIterations"] = draw(st.one_of(st.integers(20, 40), st.integers(1, 4)))
     return {"shot": spec, "D": Dz, "config": cfg, "via": draw(st.sampled_from(["set_weapon_zero", "barrel_elevation_for_target"])),
@@ -156,7 +161,7 @@ def check(case):
                 prev_e, prev_y = e_deg, y
             if base - aim_y > 0:
                 reach_margin = False  # sight-line launch already above the aim point (negative hold): not asserted
-        if reach_margin and n_it < 20:
+        if reach_margin and (n_it < 20 or acc < 5e-6):
             r.label("few-iterations-allowed-to-fail")   # a calculator capped below the default may legitimately give up
         elif reach_margin:
             steep = abs(look) > 5 * gen.DEG
